@@ -206,7 +206,7 @@ Swap(fs, i) == [j \in 1..Len(fs) |-> IF j = i THEN fs[i + 1] ELSE IF j = i + 1 T
 
 -------------------------------------------------------------------------------
 (* the system: flows are added one at a time, in any order                                 *)
-CONSTANTS FlowDomain, TxnDomain, MaxFlows
+CONSTANTS FlowDomain, TxnDomain, MaxFlows, SymLits
 VARIABLES fs, tree
 vars == <<fs, tree>>
 
@@ -216,7 +216,22 @@ Add(f) == /\ Len(fs) < MaxFlows
           /\ fs' = Append(fs, f)
           /\ tree' = AddFlow(tree, Len(fs) + 1, f)
 
-Next == \E f \in FlowDomain : Add(f)
+SymNone == <<>>
+
+\* Symmetry: when the instance is invariant under a permutation of path literals (cfg: SymLits = the
+\* interchangeable literals in the order in which they have to appear first), only load sequences in
+\* canonical form are explored - the first literal of SymLits met in the sequence is SymLits[1], the
+\* next new one SymLits[2], ...  Every other sequence is a renaming of an explored one.  <<>> = off.
+LitsOf(gs) == LET all == [i \in 1..Len(gs) |-> SelectSeq(gs[i].pat[2], LAMBDA v : \E k \in 1..Len(SymLits) : v = SymLits[k])]
+                  RECURSIVE Cat(_)
+                  Cat(i) == IF i > Len(gs) THEN <<>> ELSE all[i] \o Cat(i + 1)
+              IN  Cat(1)
+Canonical(gs) ==
+    LET ls == LitsOf(gs) IN
+    \A i \in 1..Len(ls) : \A k \in 2..Len(SymLits) :
+        ls[i] = SymLits[k] => \E j \in 1..(i - 1) : ls[j] = SymLits[k - 1]
+
+Next == \E f \in FlowDomain : Canonical(Append(fs, f)) /\ Add(f)
 
 ISpec == Init /\ [][Next]_vars
 
